@@ -568,10 +568,18 @@ fn judge(rep: &mut Report, opts: &Opts, h: &History, plan: &[PlanStep], o: &Hist
                             let (e, od) = if parity == 0 { ((cla, clo), (ola, olo)) } else { ((ola, olo), (cla, clo)) };
                             let (g, rl) = cpr::global_decode([e.0, od.0], [e.1, od.1], parity);
                             let nb = cpr::nl_boundary_distance(rl[0]) < 1e-6 || cpr::nl_boundary_distance(rl[1]) < 1e-6;
+                            // the model clock only knows the simulated silences; real time also passes between the
+                            // steps of a long history on a loaded machine. The stamps the code itself wrote (read
+                            // back from the row) bound the real distance of the two frames: when they say 9.9 s or
+                            // more although the model says less, the case is not judged.
+                            let og = (after.cpr_time[0] - after.cpr_time[1]).abs() as f64 / 1e6;
                             if gap >= 10.0 {
                                 pos_rule = Some(Err(()));
-                            } else if gap + wall + 0.05 >= 10.0 {
+                            } else if gap + wall + 0.05 >= 10.0 || og >= 9.9 {
                                 pos_rule = None;
+                                if og >= 9.9 && gap + wall + 0.05 < 10.0 {
+                                    rep.inconclusive(format!("pair {:.3} s apart by the model clock but {:.3} s by the row's own stamps (machine load): not judged", gap, og));
+                                }
                             } else {
                                 match g {
                                     Global::Straddle => pos_rule = if nb { None } else { Some(Err(())) },
